@@ -433,6 +433,14 @@ C17_Authentication(o) ==
                          /\ EndD(o).ctr = Req(o).counter /\ EndD(o).flags = Req(o).presence)
 
 -----------------------------------------------------------------------------
+(* C06 - private keys and PRF secrets never appear in anything handed back.  The relying-party role searches every
+   serialisation (CBOR, JSON, Debug) of every returned value and the Debug rendering of the stored passkeys for the
+   secrets read back from the store, in raw / hex / decimal-list / base64 / base64url form; `leaks` lists the hits. *)
+C06_NoSecretInOutput(o) == Ends(o) # <<>> => EndD(o).leaks = <<>>
+C06_PublicParametersOnly(o) ==
+    (EndOk(o) /\ IsMc(o) /\ Lower(o)) => EndD(o).cose.labels = <<-3, -2, -1, 1, 3>>
+
+-----------------------------------------------------------------------------
 \* the names of the invariants that are false in o
 Violated(o) ==
     IF ~o.b.api \in {"ctap2", "trait", "client", "u2f"} THEN {}
@@ -465,6 +473,8 @@ Violated(o) ==
     \cup (IF ~C03_Assertion(o) THEN {"C03.Assertion"} ELSE {})
     \cup (IF ~C03_NoEligibleCredential(o) THEN {"C03.NoEligibleCredential"} ELSE {})
     \cup (IF ~C09_Results(o) THEN {"C09.Results"} ELSE {})
+    \cup (IF ~C06_NoSecretInOutput(o) THEN {"C06.NoSecretInOutput"} ELSE {})
+    \cup (IF ~C06_PublicParametersOnly(o) THEN {"C06.PublicParametersOnly"} ELSE {})
     \cup (IF ~C17_Registration(o) THEN {"C17.Registration"} ELSE {})
     \cup (IF ~C17_Authentication(o) THEN {"C17.Authentication"} ELSE {})
     \cup (IF ~C18_SameAsDirect(o) THEN {"C18.SameAsDirect"} ELSE {})
